@@ -206,6 +206,20 @@ func (d *refDriver) Run(cc core.Case) core.Outcome {
 			o.Discard = "submodule-without-its-module"
 			return o
 		}
+		if m.IsSub() {
+			// (likewise: the generator has every module include all its
+			// submodules, as YANG 1.1 requires; shrinking must not drop the include)
+			inc := false
+			for _, i := range s.Mod(m.BelongsTo).Includes {
+				if i.Sub == m.Name {
+					inc = true
+				}
+			}
+			if !inc {
+				o.Discard = "submodule-not-included-by-its-module"
+				return o
+			}
+		}
 	}
 	cp := model.CompileWith(s, c.Options.IgnoreNotSupported)
 	must := model.MustReportWith(s, c.Options.IgnoreNotSupported)
